@@ -158,6 +158,7 @@ def project_edits(obj):
             out.append({"k": "pbulk", "p": pi, "n": "set_via_gen"})
             out.append({"k": "praw", "p": pi, "n": "raw_data"})
             out.append({"k": "cell", "p": pi, "l": 0, "t": 0, "c": [61, 129, 2, 0x0107, 0x8001]})
+            out.append({"k": "cell", "p": pi, "l": 0, "t": pat.tracks - 1, "c": [0, 0, 0x1234, 0, 0]})
             out.append({"k": "cell", "p": pi, "l": pat.lines - 1, "t": pat.tracks - 1, "c": [128, 0, 0, 0, 0]})
             out.append({"k": "pattr", "p": pi, "n": "name", "v": "pn"})
             out.append({"k": "pattr", "p": pi, "n": "x", "v": -77})
@@ -238,6 +239,10 @@ def check_edit(src, data, mi, e, presave=False):
     s1 = S.snapshot(obj)
     d01 = S.diff(s0, s1, limit=60)
     if not d01:
+        # (2) an edit whose new value differs from what the loaded object held must be visible in the object
+        why = should_be_visible(e, s0, mi)
+        if why:
+            return "no-change", [C.viol("edit-has-no-effect", dict(key, what=why), {"edit": e}, case)]
         return "no-change", []
     vs = []
     # (3) locality
@@ -287,6 +292,36 @@ def check_edit(src, data, mi, e, presave=False):
         vs.append(C.viol("edit-not-saved", dict(key, path=S.generic_path(d[0][0]), stale_replay=bool(stale)),
                          {"diff": S.diff_text(d)}, case))
     return "ok", vs
+
+
+def should_be_visible(e, s0, mi):
+    """For edits made through public setters: does the requested value differ from the loaded one?  Returns a short
+    reason when the edit MUST change the snapshot (conservative: None whenever that cannot be told)."""
+    k = e["k"]
+    try:
+        m = (s0["modules"][mi] if mi is not None else s0.get("module")) if k not in PROJECT_LEVEL else None
+        if k == "ctl":
+            cur = dict((n, v) for n, v in m["controllers"])
+            return "controller" if e["n"] in cur and int(cur[e["n"]]) != int(e["v"]) else None
+        if k == "sv_harmonic":
+            i = e["i"]
+            pl = m["payload"]
+            if (pl["harmonic_freqs"][i], pl["harmonic_volumes"][i], pl["harmonic_widths"][i]) != (2000, 100, 9):
+                return "harmonic"
+            return None
+        if k in ("elem", "ip_elem") and isinstance(e.get("v"), int):
+            return "array-element" if m["payload"][e["p"]][e["i"]] != e["v"] else None
+        if k == "smp_field" and e["n"] in ("volume", "finetune", "panning", "relative_note", "loop_start", "loop_len", "start_pos", "rate"):
+            return "sample-field" if m["payload"]["samples"][e["i"]][e["n"]] != e["v"] else None
+        if k == "map1":
+            return "note-map" if m["payload"]["note_samples"][e["i"]] != e["v"] else None
+        if k == "pfield" and e["n"] in s0 and not isinstance(e["v"], list):
+            return "project-field" if s0[e["n"]] != e["v"] else None
+        if k == "cell":
+            return "note-cell" if s0["patterns"][e["p"]]["cells"][e["l"]][e["t"]] != list(e["c"]) else None
+    except Exception:
+        return None
+    return None
 
 
 def sources(ctx):
